@@ -253,7 +253,7 @@ class RefInterp:
             attributes = {a: v for a, v in attributes.items() if a[:1].isupper()}
             attributes.update(cmd_attrs)
             attributes["ns"] = ns
-            out.last_command = action.to_list()
+            out.last_command = action_as_list(action)
             out.last_ns = ns
             out.sub_queries = list(subq)
             out.link_queries = link_queries
@@ -285,6 +285,22 @@ class _SubState:
 
     def get(self):
         return self._v
+
+
+def action_as_list(action):
+    """[name, argument...] of a parsed action: decoded text of plain arguments, link arguments in their '~X~...~E' form
+    (computed here, not by ActionRequest.to_list of the library under test)"""
+    from liquer.parser import StringActionParameter, LinkActionParameter
+
+    out = [action.name]
+    for x in action.parameters:
+        if isinstance(x, StringActionParameter):
+            out.append(x.string)
+        elif isinstance(x, LinkActionParameter):
+            out.append("~X~" + x.link.encode() + "~E")
+        else:
+            out.append(repr(x))
+    return out
 
 
 class _RefContext:
